@@ -7,14 +7,19 @@ From Bifrost Require Import Lib.Base SignalClient.Model SignalClient.Proofs.
 (* Every message that Recv hands to the application on the session with peer A
    (= peer_key c), in any history and against any relay behaviour, was
    delivered by the relay in that history, names A as its sender, has a
-   non-empty body and carries A's signature under the signaling context
-   (regenerated from signaling/rpc/signaling.go) over exactly that body. *)
+   non-empty body and carries the signature OF THE KEY NAMED BY THE SENDER ID
+   (A's key), under the signaling context (regenerated from
+   signaling/rpc/signaling.go) and the message's hash type, over exactly that
+   body.  The optional key attached to the signature object (Signature.pub_key)
+   does not occur in the condition: see c19_attached_key_ignored. *)
 Theorem c19_recv_authentic : forall c acts s tr j m e,
   run c c_init acts = (s, tr) ->
   In (ORecvDone j (Some m) e) tr ->
   (m_from m = FromKey (peer_key c) /\
-   m_sig m = SigOf (peer_key c) sig_ctx (m_data m) /\
-   m_data m <> []) /\
+   m_sig m = SigOf (peer_key c) sig_ctx (m_ht m) (m_data m) /\
+   m_data m <> [] /\
+   ht_ok (m_ht m) = true /\
+   m_att m <> AttBad) /\
   In (AResp (PRecv (Some m))) acts.
 Proof. exact recv_returns_authentic. Qed.
 Print Assumptions c19_recv_authentic.
@@ -30,7 +35,7 @@ Print Assumptions c19_tracker_authentic.
 
 (* "was submitted by A's client": if the relay cannot sign with A's key, i.e.
    every signature it puts into a message is junk, made with another key, or
-   one of the signatures A produced (listed as (context, body) in [signed]),
+   one of the signatures A produced (listed as (context, hash type, body) in [signed]),
    then A signed exactly the returned body under the signaling context.  This
    covers honest, bit-flipped, third-key and re-contextualised messages and any
    other combination of their parts. *)
@@ -38,7 +43,7 @@ Theorem c19_recv_submitted : forall c signed acts s tr j m e,
   Forall (act_available (peer_key c) signed) acts ->
   run c c_init acts = (s, tr) ->
   In (ORecvDone j (Some m) e) tr ->
-  authentic c m /\ In (sig_ctx, m_data m) signed.
+  authentic c m /\ In (sig_ctx, m_ht m, m_data m) signed.
 Proof. exact recv_returns_submitted. Qed.
 Print Assumptions c19_recv_submitted.
 
@@ -71,14 +76,33 @@ Theorem c19_accepts_authentic : forall c m, authentic c m <-> check_recv (peer_k
 Proof. intros c m; split; [apply check_recv_complete|apply check_recv_ok]. Qed.
 Print Assumptions c19_accepts_authentic.
 
+(* The decision depends only on the key named by from_peer_id: whatever
+   well-formed public key is attached to the signature object (none, a third
+   party's, A's own), the outcome is the same; so a message signed by a third
+   key is refused even when that key is attached. *)
+Theorem c19_attached_key_ignored : forall p m k,
+  check_recv p (with_att (AttKey k) m) = check_recv p (with_att AttNone m).
+Proof. exact attached_key_ignored. Qed.
+Print Assumptions c19_attached_key_ignored.
+
+Theorem c19_third_key_refused : forall c m k cx h b a,
+  m_sig m = SigOf k cx h b -> k <> peer_key c -> check_recv (peer_key c) (with_att a m) <> Ok tt.
+Proof.
+  intros c m k cx h b a Hs Hk Hok. apply check_recv_ok in Hok. destruct Hok as (_ & Hs' & _).
+  cbn in Hs'. rewrite Hs in Hs'. inversion Hs'. congruence.
+Qed.
+Print Assumptions c19_third_key_refused.
+
 (* non-vacuity: a history in which Recv returns an honest message of peer 1
    (local key 0), after the four forged variants were refused on an earlier
    stream: bit-flipped body, third key claiming peer 1, other context, junk. *)
 Definition ex_cfg := mkCfg 0 1.
 Definition ex_honest := sign_msg 1 [104;105] 7.
-Definition ex_flipped := mkMsg (FromKey 1) [104;104] (SigOf 1 sig_ctx [104;105]) 7.
-Definition ex_third := mkMsg (FromKey 1) [104;105] (SigOf 2 sig_ctx [104;105]) 7.
-Definition ex_ctx := mkMsg (FromKey 1) [104;105] (SigOf 1 [111] [104;105]) 7.
+Definition b3 := ht_blake3.
+Definition ex_flipped := mkMsg (FromKey 1) [104;104] (SigOf 1 sig_ctx b3 [104;105]) 7 b3 AttNone.
+Definition ex_third := mkMsg (FromKey 1) [104;105] (SigOf 2 sig_ctx b3 [104;105]) 7 b3 AttNone.
+Definition ex_third_att := mkMsg (FromKey 1) [104;105] (SigOf 2 sig_ctx b3 [104;105]) 7 b3 (AttKey 2).
+Definition ex_ctx := mkMsg (FromKey 1) [104;105] (SigOf 1 [111] b3 [104;105]) 7 b3 AttNone.
 
 Example c19_nonvacuous :
   snd (run ex_cfg c_init
@@ -87,6 +111,8 @@ Example c19_nonvacuous :
   = [OReq RInit; ORecvDone 0%nat (Some ex_honest) (Some 2)]
   /\ check_recv 1%nat ex_flipped = Err EVerify
   /\ check_recv 1%nat ex_third = Err EVerify
+  /\ check_recv 1%nat ex_third_att = Err EVerify
+  /\ check_recv 1%nat (with_att (AttKey 2) ex_honest) = Ok tt
   /\ check_recv 1%nat ex_ctx = Err EVerify
   /\ check_recv 1%nat (sign_msg 2 [104;105] 7) = Err EPeer
   /\ snd (run ex_cfg c_init
